@@ -160,6 +160,27 @@ def _atts_list(f):
     return [sdisp(c.atts) for c in f.chunks]
 
 
+def _str_fresh_ok(r):
+    """the terminal string of a result equals that of a fresh FmtStr built from the same runs (call under tracing)"""
+    from curtsies.formatstring import FmtStr, Chunk
+    fresh = FmtStr(*[Chunk(c.s, dict(c.atts)) for c in r.chunks])
+    a, b = str(r), str(fresh)
+    with NoTracing():
+        sa = a._segs if isinstance(a, SegStr) else None
+        sb_ = b._segs if isinstance(b, SegStr) else None
+        if sa is None or sb_ is None:
+            return isinstance(a, str) and isinstance(b, str) and type(a) is str and type(b) is str and a == b
+        if len(sa) != len(sb_):
+            return False
+        conj = []
+        for (s1, l1, h1), (s2, l2, h2) in zip(sa, sb_):
+            if s1 != s2:
+                return False
+            conj.append(z3.And(l1 == l2, h1 == h2))
+        t = z3.And(*conj) if conj else z3.BoolVal(True)
+    return bool(sbool(t))
+
+
 def _same_texts(f, g):
     return len(f.chunks) == len(g.chunks) and all(a.s is b.s for a, b in zip(f.chunks, g.chunks))
 
@@ -302,12 +323,14 @@ def seq(n0: int, n1: int, n2: int, bsel: int, osel: int, num: int, b1: bool, b2:
     bs = [b1, b2, b3]
     base = _base(bi, [n0, n1, n2], SegStr.source)
     before = _atts_list(base)
+    if b3:
+        str(base), len(base), base.s          # the source was already rendered before it is re-formatted
     cur = base
     want = before
     for i, op in enumerate(ops):
         cur = _apply_real(cur, op, num, bs[i])
         want = _apply_spec(want, op, num, bs[i])
-    ok = _same_texts(cur, base) and _atts_list(cur) == want and _atts_list(base) == before
+    ok = _same_texts(cur, base) and _atts_list(cur) == want and _atts_list(base) == before and _str_fresh_ok(cur)
     return verdict(ok, len(set(SEQS[0])) > 1 and bi == 5)
 
 
@@ -326,6 +349,7 @@ def funcs(n0: int, n1: int, n2: int, bsel: int, fsel: int) -> bool:
     fname = FUNC_NAMES[realize(fsel)]
     base = _base(bi, [n0, n1, n2], SegStr.source)
     before = _atts_list(base)
+    str(base)                                  # rendered before: results must not inherit its terminal string
     r = getattr(fmtfuncs, fname)(base)
     if fname == "plain":
         new = {}
@@ -333,7 +357,7 @@ def funcs(n0: int, n1: int, n2: int, bsel: int, fsel: int) -> bool:
         new = {"bg": 40}
     else:
         new = spec_parse((fname,), {})
-    ok = _same_texts(r, base) and _atts_list(r) == _expect(before, new) and _atts_list(base) == before
+    ok = _same_texts(r, base) and _atts_list(r) == _expect(before, new) and _atts_list(base) == before and _str_fresh_ok(r)
     # equivalent spellings give identical results
     if fname not in ("plain", "on_dark"):
         alts = [fmtstr(base, fname), fmtstr(base, style=fname), base.copy_with_new_atts(**new)]
@@ -371,10 +395,13 @@ def shared(n0: int, n1: int, n2: int, s0: int, s1: int, s2: int) -> bool:
             if ns[i] > 0 and not (k in al[i] and al[i][k] == v):
                 ok = False
     # copy_with_new_str keeps a uniformly formatted string's formatting
-    uniform = all(disp(a) == disp(al[0]) for a in al)
+    # uniformly formatted: every run that holds characters shows the same formatting; empty runs either show the
+    # same or are plain (strings accumulated from fmtstr(''))
+    full = [disp(al[i]) for i in range(K) if ns[i] > 0]
+    empt = [disp(al[i]) for i in range(K) if not (ns[i] > 0)]
     g = f.copy_with_new_str(SegStr.source(9, n0))
-    if uniform:
-        ok = ok and len(g.chunks) == 1 and disp(g.chunks[0].atts) == disp(al[0]) and g.chunks[0].s is not None
+    if full and all(d == full[0] for d in full) and all(d == full[0] or d == {} for d in empt):
+        ok = ok and len(g.chunks) == 1 and disp(g.chunks[0].atts) == full[0] and g.chunks[0].s is not None
     return verdict(ok, K >= 2 and len(sh) >= 1 and n0 > 0)
 
 
@@ -473,6 +500,8 @@ def concrete(fn, params, args):
         ops = [OPS[i] for i in _seqs()[osel]]
         base = _base(bi, [n0, n1, n2], src_text)
         before = _atts_list(base)
+        if b3:
+            str(base), len(base), base.s
         cur, want = base, before
         bs = [b1, b2, b3]
         try:
@@ -481,7 +510,9 @@ def concrete(fn, params, args):
                 want = _apply_spec(want, op, num, bs[i])
         except Exception as ex:
             return {"ok": False, "observed": repr(ex), "expected": repr(want), "call": "%r through %r" % (base, ops)}
-        return {"ok": _atts_list(cur) == want and cur.s == base.s and _atts_list(base) == before, "observed": repr(_atts_list(cur)),
+        fresh = FmtStr(*[Chunk(c.s, dict(c.atts)) for c in cur.chunks])
+        return {"ok": _atts_list(cur) == want and cur.s == base.s and _atts_list(base) == before and str(cur) == str(fresh),
+                "observed": repr(_atts_list(cur)) + " str=%r" % str(cur),
                 "expected": repr(want), "call": "%r through %r (num=%r, bools=%r)" % (base, ops, num, bs)}
     if fn == "funcs":
         n0, n1, n2, bi, fsel = args
@@ -489,10 +520,11 @@ def concrete(fn, params, args):
         base = _base(bi, [n0, n1, n2], src_text)
         before = _atts_list(base)
         new = {} if fname == "plain" else ({"bg": 40} if fname == "on_dark" else spec_parse((fname,), {}))
+        str(base)
         r, err = attempt(lambda: getattr(fmtfuncs, fname)(base))
         if err:
             return {"ok": False, "observed": err, "expected": repr(_expect(before, new)), "call": "%s(%r)" % (fname, base)}
-        ok = _atts_list(r) == _expect(before, new) and r.s == base.s
+        ok = _atts_list(r) == _expect(before, new) and r.s == base.s and str(r) == str(FmtStr(*[Chunk(c.s, dict(c.atts)) for c in r.chunks]))
         if ok and fname not in ("plain", "on_dark"):
             alts = [fmtstr(base, fname), fmtstr(base, style=fname), base.copy_with_new_atts(**new)]
             if "fg" in new:
@@ -512,8 +544,10 @@ def concrete(fn, params, args):
         sh = f.shared_atts
         ok = all(k in al[i] and al[i][k] == v for k, v in sh.items() for i in range(K) if ns[i] > 0)
         g = f.copy_with_new_str(src_text(9, n0))
-        if all(disp(a) == disp(al[0]) for a in al):
-            ok = ok and g.s == src_text(9, n0) and all(disp(c.atts) == disp(al[0]) for c in g.chunks)
+        full = [disp(al[i]) for i in range(K) if ns[i] > 0]
+        empt = [disp(al[i]) for i in range(K) if not (ns[i] > 0)]
+        if full and all(d == full[0] for d in full) and all(d == full[0] or d == {} for d in empt):
+            ok = ok and g.s == src_text(9, n0) and all(disp(c.atts) == full[0] for c in g.chunks)
         return {"ok": ok, "observed": "shared_atts=%r copy_with_new_str=%r" % (sh, g), "expected": "only attributes every character has",
                 "call": "%r" % f}
     if fn == "twice":
